@@ -2197,6 +2197,7 @@ class QuaternionArray(np.ndarray):
         # Create the ndarray instance of type QuaternionArray. This will call
         # the standard ndarray constructor, but return an object of type
         # QuaternionArray.
+        q = np.ascontiguousarray(q, dtype=float)   # the buffer is read as C-ordered float64: a Fortran-ordered (e.g. transposed) input would be scrambled
         obj = super(QuaternionArray, subtype).__new__(subtype, q.shape, float, q)
         obj.array = q
         obj.scalar_vector = order == 'H'
